@@ -63,6 +63,9 @@ func c05Run(f []string) string {
 	if f[0] == "logerr" {
 		return c05LogErr(f)
 	}
+	if f[0] == "closelag" {
+		return c05CloseLag(f)
+	}
 	if f[0] != "agg" {
 		return "bad-op"
 	}
@@ -221,6 +224,10 @@ func c05Stats(cases []string) map[string]int {
 			continue
 		}
 		if c05LocksetStats(st, c) {
+			continue
+		}
+		if f[0] == "closelag" {
+			st["closelag.cases"]++
 			continue
 		}
 		if f[0] == "logger" || f[0] == "logerr" {
